@@ -37,17 +37,26 @@ Proof.
   assert (n < 2 ^ Z.succ (Z.log2 n)) by (apply Z.log2_spec; lia).
   assert (2 ^ Z.succ (Z.log2 n) <= 10 ^ Z.succ (Z.log2 n)) by (apply Z.pow_le_mono_l; pose proof (Z.log2_nonneg n); lia). lia.
 Qed.
+(* on plain digits the underscore-aware scanner IS the digit reader *)
+Lemma scan_digits b : forall ds, Forall is_digit ds -> forall a st, ds <> [] \/ st = 1%nat -> scan b ds a st = parse_digits b ds a.
+Proof.
+  induction ds as [|c ds IH]; intros Fd a st H.
+  - destruct H as [H| ->]; [congruence|reflexivity].
+  - inversion Fd as [|? ? Hc Hds]; subst. unfold is_digit in Hc. cbn [scan parse_digits].
+    destruct (N.eqb_spec c 95) as [->|_]; [lia|]. destruct (digit_val c); [|reflexivity]. destruct (z <? b); [|reflexivity]. apply IH; auto.
+Qed.
 Theorem int_print_parse n : parse_int (str_of_int n) 10 = Some n.
 Proof.
   unfold str_of_int. destruct (pos_digits_spec (S (Z.to_nat (Z.log2 (Z.abs n)))) (Z.abs n) [] ltac:(lia)) as (ds & E & NE & Fd & Pd).
   { split; [lia|apply fuel_enough; lia]. }
   rewrite E, app_nil_r. destruct ds as [|c ds]; [congruence|]. inversion Fd as [|? ? Hc Hds]; subst. unfold is_digit in Hc.
-  assert (DP : forall r, drop_prefix 10 r = r) by (intros r; unfold drop_prefix; destruct r as [|a0 [|c0 [|d0 r']]]; auto; unfold prefix_letter; cbn [Z.eqb Pos.eqb andb orb]; rewrite andb_false_r; reflexivity).
+  assert (DP : forall r, drop_prefix 10 r = r /\ has_prefix 10 r = false) by (intros r; unfold drop_prefix, has_prefix; destruct r as [|a0 [|c0 [|d0 r']]]; auto; unfold prefix_letter; cbn [Z.eqb Pos.eqb andb orb]; rewrite andb_false_r; split; reflexivity).
+  assert (PU : parse_unsigned (c :: ds) 10 = Some (Z.abs n)).
+  { unfold parse_unsigned. destruct (DP (c :: ds)) as [-> ->]. rewrite scan_digits by (auto; left; discriminate). rewrite (Pd 0). f_equal; lia. }
   destruct (n <? 0) eqn:Neg.
-  - apply Z.ltb_lt in Neg. unfold parse_int. cbn [app N.eqb Pos.eqb]. unfold parse_unsigned. rewrite DP. rewrite (Pd 0). f_equal. lia.
-  - apply Z.ltb_ge in Neg. unfold parse_int. cbn [app].
-    destruct (N.eqb_spec c 45) as [->|N1]; [lia|]. destruct (N.eqb_spec c 43) as [->|N2]; [lia|].
-    unfold parse_unsigned. rewrite DP. rewrite (Pd 0). f_equal. lia.
+  - apply Z.ltb_lt in Neg. unfold parse_int. cbn [app N.eqb Pos.eqb Z.eqb]. rewrite PU. f_equal. lia.
+  - apply Z.ltb_ge in Neg. unfold parse_int. cbn [app Z.eqb].
+    destruct (N.eqb_spec c 45) as [->|N1]; [lia|]. destruct (N.eqb_spec c 43) as [->|N2]; [lia|]. rewrite PU. f_equal. lia.
 Qed.
 (* printing is injective: different integers print differently *)
 Corollary int_print_injective a b : str_of_int a = str_of_int b -> a = b.
